@@ -321,6 +321,10 @@ class Supercell(object):
         """
         if c < -1 or c >= self.Nchem:
             raise IndexError('Trying to occupy with a non-defined chemistry: {} out of range'.format(c))
+        if ind < 0:
+            # negative indices count from the end; store the site itself so chemorder stays consistent
+            if ind < -len(self.occ): raise IndexError('Site index {} out of range'.format(ind))
+            ind += len(self.occ)
         corig = self.occ[ind]
         if corig != c:
             if corig >= 0:
